@@ -304,6 +304,11 @@ func registerIntrinsics(m *Machine) {
 		dst := a[0].(Iface)
 		for _, al := range dst.Alts {
 			if al.S != "discard" {
+				// reached only on a path the harness has excluded (guard unsatisfiable together with the
+				// assumptions): nothing to model; otherwise an engine limit
+				if m.Feasible != nil && !m.Feasible(c.And(it.G, al.G)) {
+					continue
+				}
 				m.fail("io.Copy to non-Discard writer is not modelled")
 			}
 		}
